@@ -34,7 +34,7 @@ SPEC = dict(
           "event + distinct (failed step kind, position) pairs"),
     assumptions=["R7 (function expected() below) encodes the statement's pipeline; read-only VCS queries are ignored",
                  "hg is only observed up to the argv/log-file boundary (no hg binary here)"],
-    required=["runs", "dirty_pattern_file_with_allow_dirty", "runs_with_mutating_trace", "fault_runs", "hook_env_checked", "contradictions_rejected",
+    required=["runs", "noisy_hook_runs", "dirty_pattern_file_with_allow_dirty", "runs_with_mutating_trace", "fault_runs", "hook_env_checked", "contradictions_rejected",
               "dry_runs", "no_fetch_runs", "vcs:git", "vcs:hg", "failed_step:commit", "failed_step:tag",
               "failed_step:pre-hook", "order_by_checksum_checked"],
     anchors=[("cli", "_parse_vcs_options"), ("cli", "_update"), ("vcs", "commit"), ("hooks", "run"),
@@ -84,6 +84,15 @@ def cases(ctx):
     for k, f in enumerate(bases):
         if ctx.mine(k):
             yield {"kind": "faults", "f": f}
+    # hooks that succeed but are talkative: the pipeline has to get past them (bounded progress; a run that does not
+    # finish is examined for a wait-for cycle between bumpver and the hook instead of being judged by the clock)
+    k = 0
+    for which in ("pre", "post"):
+        for nbytes in (0, 4096, 70000, 300000):
+            for vcs in (0, 1):
+                if ctx.mine(k):
+                    yield {"kind": "noisy-hook", "which": which, "nbytes": nbytes, "vcs": vcs}
+                k += 1
 
 
 def effective(f):
@@ -360,7 +369,40 @@ def run_once(ctx, f, fault_nth=None):
         fake.destroy()
 
 
+def run_noisy_hook(ctx, case):
+    vcs = "hg" if case["vcs"] else "git"
+    which = case["which"]
+    lines = ["[bumpver]", 'current_version = "1.2.3"', 'version_pattern = "MAJOR.MINOR.PATCH"', "commit = true", "tag = true",
+             "push = false", f'{which}_commit_hook = "hook-{which}"', "", "[bumpver.file_patterns]",
+             '"bumpver.toml" = [\'current_version = "{version}"\']', '"a.txt" = ["version {version}"]', ""]
+    d = harness.new_project({"bumpver.toml": "\n".join(lines), "a.txt": "hello\nversion 1.2.3\n"})
+    fake = harness.FakeVCS(d, vcs)
+    try:
+        fake.hook(which)
+        fake.set_out("status", "")
+        fake.hook_noise(case["nbytes"])
+        out = harness.run_cli_watch_for_deadlock(["update", "--patch", "--no-fetch"], cwd=d, env=fake.env)
+        kinds = [m for m in map(harness.mutating_kind, fake.events()) if m]
+        ctx.count("noisy_hook_runs")
+        ctx.evaluated(("noisy-hook", which, case["nbytes"], vcs), sample={"hook": which, "stderr_bytes": case["nbytes"], "outcome": out[0], "trace": kinds})
+        if out[0] == "deadlock":
+            ctx.violation("hook_output_deadlock", f"{which}-commit hook writing {case['nbytes']} bytes to stderr ({vcs}): {out[1]}; "
+                          f"steps so far: {kinds}", case=case)
+        elif out[0] == "slow":
+            ctx.count("noisy_hook_runs_inconclusive(slow)")
+        else:
+            want = (["pre-hook"] if which == "pre" else []) + ["add", "add", "commit"] + (["post-hook"] if which == "post" else []) + ["tag"]
+            if out[1] != 0 or kinds != want:
+                ctx.violation("other:noisy_hook_changes_the_pipeline", f"{which}-commit hook writing {case['nbytes']} bytes "
+                              f"({vcs}): exit {out[1]}, steps {kinds}, expected {want}; stderr tail {out[3][-200:]!r}", case=case)
+    finally:
+        harness.rm_dir(d)
+        fake.destroy()
+
+
 def run_case(ctx, case):
+    if case["kind"] == "noisy-hook":
+        return run_noisy_hook(ctx, case)
     if case["kind"] == "cfg":
         f = decode(case["idx"])
         res, evs, exp, problems, args = run_once(ctx, f)
